@@ -215,6 +215,9 @@ def run(ctx):
     rej, drift = report(ctx, "V", vevs, vvs)
     ctx.traces += nv
     ctx.stage("V", kind="code->spec", port_lists=nv, lookups=sum(len(e["lookups"]) for e in vevs), rejected=rej, drift_lookups=drift)
+    import legacy_session
+    legacy_session.run_stage(ctx)        # growth beyond the list: discovery + handshake + open/close life cycle of a legacy session (observations only)
+    sess = Session()                     # the stage rebinds comports; restore this check's own stubs
     ctx.trusted += ["TLC 1.8", "harness descriptor catalogue (self-tested against Discovery.tla) and rebinding of comports", "vlib parser"]
     ctx.assumptions += ["ports are (device, description, hardware id) triples with unique device strings; descriptor shapes from the catalogue "
                         "(macOS/Linux named + unnamed, Windows SER=, pyserial-2.7 SNR=, VID:PID only, foreign, foreign mentioning a board name, Bluetooth)",
